@@ -7,7 +7,7 @@ import vlib
 from props import fam_map as F
 
 
-MANIFEST = {'technique': 'Coq proof (C remainder/index lemmas for all integers, set-up permutation for all headers/axis orders/extents, scaled operations in range for all table rows and compatible grid sizes) + exact differential check + oracles on gemmi', 'text': 'Theorems: modulo a n = a mod n for every a (n > 0) with C remainder semantics; index_n exact on [-n, 2n) and wrong outside it; index_s total; for all 564 rows of the regenerated table and EVERY grid size accepted by check_grid_factors each scaled operation maps in-grid points into [-n, 2n) (kernel-evaluated checker, soundness proved for all sizes and points); axis_positions accepts exactly the six permutations; in all three set-up modes, for each axis order, any start and any extent, file voxel (c,r,s) lands at grid[(start+crs) permuted mod sampling] and uncovered voxels hold the default - hence the axis order of the file does not change the map. Exact correspondence on all rows (grid factors, scaled operations, written header words), hand-made files in 6 axis orders x modes 0/1/2/6 x 2 byte orders x 3 set-up modes; oracles on gemmi: write->read identity (file, memory, other byte order), permuted / ASU-box files expand to the invariant full grid, Ccp4::set_extent (ASU brick and random boxes, also beyond the cell) keeps exactly the grid points inside the box and its file expands back to the map it was cut from, ASU mask marks one point per orbit, every symmetrize_* makes the grid invariant and is idempotent. NOT theorems (oracle only): orbit fill, idempotence/invariance of the symmetrisation functions, ASU mask, float header words.', 'note': 'Trusted: Coq kernel + vm_compute; table translator; extraction; harness. No axioms. Voxel values are small integers (exact in every mode); find_asu_brick is not re-implemented (its result is an input of the mask model).'}
+MANIFEST = {'technique': 'Coq proof (C remainder/index lemmas for all integers, set-up permutation for all headers/axis orders/extents, scaled operations in range for all table rows and compatible grid sizes) + exact differential check + oracles on gemmi', 'text': 'AsuBrick::uvw_end (Map/BrickEnd.v): along an axis with n points the grid points below the end are exactly those with u/n <= size/24 (bound included) or < size/24 (whole cell), for every n - compared with gemmi for every brick size and samplings up to a million. Theorems: modulo a n = a mod n for every a (n > 0) with C remainder semantics; index_n exact on [-n, 2n) and wrong outside it; index_s total; for all 564 rows of the regenerated table and EVERY grid size accepted by check_grid_factors each scaled operation maps in-grid points into [-n, 2n) (kernel-evaluated checker, soundness proved for all sizes and points); axis_positions accepts exactly the six permutations; in all three set-up modes, for each axis order, any start and any extent, file voxel (c,r,s) lands at grid[(start+crs) permuted mod sampling] and uncovered voxels hold the default - hence the axis order of the file does not change the map. Exact correspondence on all rows (grid factors, scaled operations, written header words), hand-made files in 6 axis orders x modes 0/1/2/6 x 2 byte orders x 3 set-up modes; oracles on gemmi: write->read identity (file, memory, other byte order), permuted / ASU-box files expand to the invariant full grid, Ccp4::set_extent (ASU brick and random boxes, also beyond the cell) keeps exactly the grid points inside the box and its file expands back to the map it was cut from, ASU mask marks one point per orbit, every symmetrize_* makes the grid invariant and is idempotent. NOT theorems (oracle only): orbit fill, idempotence/invariance of the symmetrisation functions, ASU mask, float header words.', 'note': 'Trusted: Coq kernel + vm_compute; table translator; extraction; harness. No axioms. Voxel values are small integers (exact in every mode); find_asu_brick is not re-implemented (its result is an input of the mask model).'}
 
 def gen_cases(rng, h, info, quick):
     lines = []
@@ -107,6 +107,12 @@ def gen_cases(rng, h, info, quick):
         n = rng.choice([[3, 4, 5], [5, 4, 3], [2, 7, 3], [6, 6, 4], [4, 6, 6], [5, 5, 5], [1, 2, 3],
                         [rng.randint(1, 12), rng.randint(1, 12), rng.randint(1, 12)]])
         lines.append('o_zyx\t%d %d %d %d %d' % (n[0], n[1], n[2], rng.randint(0, 99), rng.choice([0, 1, 2, 2, 6])))
+    # AsuBrick::uvw_end (model Map/BrickEnd.v): every brick size the search may return x every sampling up to 200, and large ones
+    sizes = [3, 4, 6, 8, 12, 16, 18, 24]
+    ns = list(range(1, 60 if quick else 201)) + [255, 256, 1000, 4095, 4096, 65536, 1000000]
+    for a in sizes:
+        for n in ns:
+            lines.append('bend\t%d %d %d %d %d %d' % (a, rng.choice(sizes), rng.choice(sizes), n, rng.choice(ns), rng.choice(ns)))
     return lines, bricks
 
 
